@@ -937,6 +937,11 @@ class Lifted:
                             mod._fold_globals[tgt.id] = []
                         elif isinstance(val, ast.Call) and not val.args and not val.keywords and ast.unparse(val.func) in ("dict", "list", "set"):
                             mod._fold_globals[tgt.id] = {"dict": dict, "list": list, "set": set}[ast.unparse(val.func)]()
+                        else:
+                            try:   # any other module-level literal (a number, a string, a filled table): one object per parsed module
+                                mod._fold_globals[tgt.id] = ast.literal_eval(val)
+                            except (ValueError, SyntaxError, TypeError, MemoryError, RecursionError):
+                                pass
             self.module_globals = mod._fold_globals
             self.module_funcs = {n.name: n for n in mod.tree.body if isinstance(n, ast.FunctionDef) and n is not fn}
             self.module_classes = {n.name: n for n in mod.tree.body if isinstance(n, ast.ClassDef)}
